@@ -1629,3 +1629,49 @@ def namespace_reuse_guard(repo, run, rule):
         run.violation(rule, fi, 'reuse of a published namespace', '; '.join(sorted(bad)))
     else:
         run.ok(rule, fi, 'published namespace reused iff persistent_namespace and the module is in sys.modules (%d run sites)' % n)
+
+
+def import_name_table(repo, run, rule):
+    """utils.import_name evaluated against a model of importable modules: a dotted name is resolved by importing as long as
+    modules are found and by attribute access from then on; a name that does not resolve is an ImportError, an empty / dangling
+    name a ValueError"""
+    from ..fde import ExcValue
+    fi = repo.func('utils.import_name')
+    MAKE, FN, ATTR = 'pkg.mod.Cls.make', 'pkg.mod.fn', 'pkg.attr'
+    cls = Obj('Cls', '<class>', make=MAKE)
+    cls.missing.update({'nofn', 'x'})
+    m_mod = Obj('pkg.mod', '<module>', __name__='pkg.mod', fn=FN, Cls=cls)
+    m_mod.missing.update({'nofn', 'missing', 'make', 'Cls2'})
+    m_pkg = Obj('pkg', '<module>', __name__='pkg', attr=ATTR, mod=m_mod)
+    m_pkg.missing.update({'missing', 'nofn', 'fn'})
+    modules = {'pkg': m_pkg, 'pkg.mod': m_mod}
+    cases = [('pkg.mod.fn', FN), ('pkg.mod.Cls.make', MAKE), ('pkg.attr', ATTR), ('pkg.mod', m_mod), ('pkg', m_pkg), ('pkg.missing', 'ImportError'), ('pkg.mod.nofn', 'ImportError'),
+             ('nopkg.x', 'ImportError'), ('pkg.mod.Cls.x', 'ImportError'), ('', 'ValueError'), ('pkg.', 'ValueError')]
+    bad = []
+    for name, want in cases:
+        asked = []
+
+        def imp(modname, package=None, asked=asked):
+            asked.append((modname, package))
+            full = (package + modname) if modname.startswith('.') and package else modname
+            if modname.startswith('.') and not package:
+                raise TypeError('relative import without package')
+            if full in modules:
+                return modules[full]
+            raise ImportError(full)
+        imp._fde_ok = True
+        ev = _fde(repo, stubs={'_build_import_exception'}, stub=lambda n, r, a, k: ExcValue('ImportError', a))
+        ev.extcalls['importlib.import_module'] = imp
+        try:
+            r = ev.call(fi, name)
+        except Unsupported as e:
+            raise AnalysisError('utils.import_name: finite-domain evaluator refused: %s' % e)
+        if isinstance(want, str) and want.endswith('Error'):
+            if r.raised != want:
+                bad.append('%r: %s (expected %s)' % (name, r.raised or 'resolves to %r' % (r.ret,), want))
+        elif r.raised or (r.ret is not want and r.ret != want):
+            bad.append('%r resolves to %s, expected %s' % (name, r.raised or repr(r.ret), getattr(want, 'name', want)))
+    if bad:
+        run.violation(rule, fi, 'utils.import_name', '; '.join(bad[:3]))
+    else:
+        run.ok(rule, fi, 'import_name evaluated on %d names against a module model' % len(cases), 'import while modules are found (relative to the package found so far), then attributes; unresolved -> ImportError; empty -> ValueError')
